@@ -6,16 +6,14 @@ import (
 	"strings"
 
 	"go.lstv.dev/util/sem"
+	"verif/libdefaults"
 	"verif/mc"
 	"verif/oracle"
 )
 
 func reset() {
 	curLimit = 1024
-	sem.MaxInputLength = 1024
-	sem.Formatter = sem.DefaultFormatter
-	sem.Parser = sem.DefaultParser[[]byte]
-	sem.ComparePreRelease = sem.DefaultComparePreRelease[string, string]
+	libdefaults.Sem()
 }
 
 type pairArg struct {
@@ -137,6 +135,9 @@ func setupHelpers(a helperArg) {
 		curLimit = *a.Limit
 	}
 	sem.MaxInputLength = curLimit
+	if a.Limit == nil { // default configuration: whatever the library starts with (the oracle assumes the documented 1024)
+		sem.MaxInputLength = libdefaults.SemMaxInputLength
+	}
 	switch a.Custom {
 	case 1:
 		sem.ComparePreRelease = func(x, y string) int { return -sem.DefaultComparePreRelease(x, y) }
